@@ -79,16 +79,19 @@ def main():
         assert rc == 0, out
         try:
             flt = ' '.join(tests[:1])
+            democmd = 'cargo test --lib --offline ' + flt
+            if '--demo-cmd' in sys.argv:
+                democmd = sys.argv[sys.argv.index('--demo-cmd') + 1].replace('+', ' ')   # '+' stands for a space (queue lines are split on blanks)
             rc, out = sh('git apply %s' % demo, cwd=WT)
             assert rc == 0, 'demo.diff does not apply: ' + out
-            rc1, out1 = sh('cargo test --lib --offline %s 2>&1 | tail -15' % flt, cwd=os.path.join(WT, crate))
+            rc1, out1 = sh(democmd + ' 2>&1 | tail -15', cwd=os.path.join(WT, crate))
             ok_clean = 'test result: ok' in out1 and ' 0 passed' not in out1
-            meta['ran'].append({'step': 'clean + demo', 'cmd': 'cargo test --lib --offline ' + flt, 'passed': ok_clean, 'tail': out1[-400:]})
+            meta['ran'].append({'step': 'clean + demo', 'cmd': democmd, 'passed': ok_clean, 'tail': out1[-400:]})
             rc, out = sh('git apply %s' % patch, cwd=WT)
             assert rc == 0, 'patch.diff does not apply: ' + out
-            rc2, out2 = sh('cargo test --lib --offline %s 2>&1 | tail -25' % flt, cwd=os.path.join(WT, crate))
+            rc2, out2 = sh(democmd + ' 2>&1 | tail -25', cwd=os.path.join(WT, crate))
             fails_patched = 'test result: FAILED' in out2
-            meta['ran'].append({'step': 'patch + demo', 'cmd': 'cargo test --lib --offline ' + flt, 'failed_as_expected': fails_patched, 'tail': out2[-600:]})
+            meta['ran'].append({'step': 'patch + demo', 'cmd': democmd, 'failed_as_expected': fails_patched, 'tail': out2[-600:]})
             sh('git apply -R %s' % demo, cwd=WT)
             rc3, out3 = sh('cargo nextest run --workspace --no-fail-fast --tool-config-file pb:/w/lib/nextest.toml --profile pb --test-threads 8 --offline 2>&1 | tail -12', cwd=WT, timeout=7200)
             m = re.search(r'(\d+) tests run: (\d+) passed(?: \([^)]*\))?, (\d+) failed', out3)
